@@ -82,6 +82,12 @@ def opGetSed : Rd String := do
       let e := match s.err with | none => "0 0" | some l => s!"1 {showRows l}"
       pure s!"sed {showRats s.wav} {a} {showRows s.flux} {e}"
 
+def showConv (r : Conv Rat) : String :=
+  let ws := match r.wavelength with | none => "0 0" | some x => s!"1 {showRat x}"
+  let a := match r.aps with | none => "0 0" | some l => s!"1 {showRats l}"
+  let ns := " ".intercalate (toString r.names.length :: r.names)
+  s!"read {ws} {ns} {a} {showRows r.flux} {showRows r.err}"
+
 /-- `convrt haswav wav {names} hasaps {aps} {flux rows} {err rows}`
     → `read haswav wav {names} hasaps {aps} {flux rows} {err rows}` -/
 def opConvRt : Rd String := do
@@ -94,11 +100,25 @@ def opConvRt : Rd String := do
   let err ← listOf (listOf rat)
   let c : Conv Rat := { wavelength := if hasW = 1 then some w else none, names := names,
                         aps := if hasAps = 1 then some aps else none, flux := flux, err := err }
-  let r := convRead (convWrite c)
-  let ws := match r.wavelength with | none => "0 0" | some x => s!"1 {showRat x}"
-  let a := match r.aps with | none => "0 0" | some l => s!"1 {showRats l}"
-  let ns := " ".intercalate (toString r.names.length :: r.names)
-  pure s!"read {ws} {ns} {a} {showRows r.flux} {showRows r.err}"
+  match convRead (convWrite c) with
+  | none => pure "raise-read"
+  | some r => pure (showConv r)
+
+/-- `convread1d haswav wav {names} hasaps {aps} {flux column} {err column}`: a file with scalar columns
+    → `read …` as `convrt`, or `raise-read` -/
+def opConvRead1d : Rd String := do
+  let hasW ← nat
+  let w ← rat
+  let names ← listOf tok
+  let hasAps ← nat
+  let aps ← listOf rat
+  let flux ← listOf rat
+  let err ← listOf rat
+  let f : ConvFile Rat := { filtwav := if hasW = 1 then some w else none, names := names,
+                            aps := if hasAps = 1 then some aps else none, flux := .d1 flux, err := .d1 err }
+  match convRead f with
+  | none => pure "raise-read"
+  | some r => pure (showConv r)
 
 end Drv.C12
 
@@ -110,6 +130,7 @@ def handleC12 (op : String) : Option (Rd String) :=
   | "cubert" => some C12.opCubeRt
   | "getsed" => some C12.opGetSed
   | "convrt" => some C12.opConvRt
+  | "convread1d" => some C12.opConvRead1d
   | _ => none
 
 end Drv
